@@ -4,7 +4,8 @@ P="$1"; shift
 for i in 1 2; do
   sid="$P-$( [ $i = 1 ] && echo c || echo d )"
   flags=$(head -1 /tmp/wt/${P}w2/out/demo${i}_test.go 2>/dev/null | sed -n 's#^// demo flags: *##p')
-  DEMOFLAGS="${DEMOFLAGS:-$flags}" /verif/tools/import_seed.sh /tmp/wt/${P}w2 $i $sid $P || continue
+  DEMOFLAGS="${DEMOFLAGS:-$flags}" /verif/tools/import_seed.sh /tmp/wt/${P}w2 $i $sid $P || { KEEP=1; continue; }
   /verif/tools/mutrun.sh /verif/seeded/$sid/patch.diff "$@" 2>&1 | grep -E "exit=|signature" | cut -c1-260
 done
+[ -n "${KEEP:-}" ] && { echo "kept /tmp/wt/${P}w2 for inspection (an import was rejected)"; exit 0; }
 git -C /repo worktree remove --force /tmp/wt/${P}w2/repo 2>/dev/null; rm -rf /tmp/wt/${P}w2
